@@ -374,7 +374,7 @@ class LighthouseInitialEstimator:
         def q_average(Q, W=None):
             if W is not None:
                 Q *= W[:, None]
-            eigvals, eigvecs = np.linalg.eig(Q.T@Q)
+            eigvals, eigvecs = np.linalg.eigh(Q.T@Q)
             return eigvecs[:, eigvals.argmax()]
 
         positions = map(lambda x: x.translation, poses)
